@@ -342,8 +342,24 @@ def run_case(case, acc):
                     pp, st = procs[pid]
                     t.spawn(pid, st, ppid=pp, comm=nasty_comm(pid))
                 pr = ps.Process(caller)
+        stale_low = None
+        if not case.get("vanish") and case.get("stale_listing") is not None and any(p >= case["stale_listing"] for p in procs):
+            # the program's last listing (pids() / process_iter()) dates from when only the PIDs >= L existed; lower PIDs have
+            # appeared since (the kernel's PID counter wrapped) and nothing was listed again before parent() is asked
+            stale_low = min(p for p in procs if p >= case["stale_listing"])
+            for p in [p for p in t.procs if p < stale_low]:
+                t.procs.pop(p)
+            ps.pids()
+            for p in list(t.procs):
+                t.procs.pop(p)
+            for pid in sorted(procs):
+                pp, st = procs[pid]
+                t.spawn(pid, st, ppid=pp, comm=nasty_comm(pid))
+            pr = ps.Process(caller)
+            acc.count("parent_walks_after_lower_pids_appeared_since_the_last_listing")
+        refresh = (lambda: None) if stale_low is not None else ps.pids
         if not case.get("vanish"):
-            ps.pids()   # fresh lowest-pid knowledge, as the statement's rule is evaluated on the current table
+            refresh()   # fresh lowest-pid knowledge, as the statement's rule is evaluated on the current table
             r = call(lambda: pr.parent())
             acc.count("parent_calls_checked")
             want = ref_parent(procs, caller)
@@ -354,10 +370,17 @@ def run_case(case, acc):
             else:
                 got = r[1].pid if r[1] is not None else None
                 if got != want and not (caller == lowest and got is None):
-                    viols.append(("parent_wrong", ctx + f" got={got} want={want}"))
+                    mech = "parent_wrong"
+                    if stale_low is not None:
+                        mech += ":stale_lowest_pid_shortcut" if (caller == stale_low and got is None) else ":lower_pids_appeared_since_last_listing"
+                    viols.append((mech, ctx + f" got={got} want={want} stale_listing_lowest={stale_low}"))
             wantc = ref_parents(procs, caller, lowest)
+            if wantc is not None and stale_low is not None and ref_parents(procs, caller, stale_low) is None:
+                # finite only thanks to the lowest-PID rule, which is evaluated with the remembered lowest PID: a cyclic chain
+                # upwards, where only children() is promised to terminate
+                wantc = None
             if wantc is not None:
-                ps.pids()
+                refresh()
                 use_trace_saved = use_trace
                 r = call(lambda: pr.parents())
                 acc.count("parents_calls_checked")
@@ -368,7 +391,11 @@ def run_case(case, acc):
                 else:
                     got = [p.pid for p in r[1]]
                     if got != wantc:
-                        viols.append(("parents_wrong", ctx + f" got={got} want={wantc}"))
+                        mech = "parents_wrong"
+                        if stale_low is not None:
+                            mech += (":stale_lowest_pid_shortcut" if got == ref_parents(procs, caller, stale_low)
+                                     else ":lower_pids_appeared_since_last_listing")
+                        viols.append((mech, ctx + f" got={got} want={wantc} stale_listing_lowest={stale_low}"))
             else:
                 acc.count("parents_infinite_chain_not_judged")
     acc.case(case, bool(feats), viols)
@@ -423,6 +450,8 @@ def gen_random(rng):
         case["recycle"] = True
     elif r < 0.4:
         case["trace"] = True
+    elif r < 0.55:
+        case["stale_listing"] = rng.choice(pids)
     return case
 
 
